@@ -88,7 +88,7 @@ fn text_failure(f: Fmt, pipe: Pipe, text: &str, want: &str) -> Option<String> {
 /// half of the spacing seeds write the value with the derived copulas (same meaning, other tokens)
 fn sugar_of(seed: u64) -> Sugar {
     if seed % 2 == 1 {
-        Sugar { derived_copulas: true, retrospective: true, interval_pad: 0, placeholder_suffix: String::new(), coin: if seed % 4 == 1 { None } else { Some(seed | 1) } }
+        Sugar { derived_copulas: true, retrospective: true, interval_pad: 0, placeholder_suffix: String::new(), coin: if seed % 4 == 1 { None } else { Some(seed | 1) }, pinned: false }
     } else {
         Sugar::default()
     }
